@@ -85,7 +85,7 @@ def lark_rule_grammar(text):
     return T, R, list(ignores)
 
 
-def substitution_language(T, R, ignores, term_strings, bound, size=None):
+def substitution_language(T, R, ignores, term_strings, bound, size=None, liberal=False):
     """All strings of size <= bound of the substitution semantics.  term_strings: terminal -> set of str it matches."""
     V = frozenset(("T", t) for t in T)
     tl = {}
@@ -94,7 +94,7 @@ def substitution_language(T, R, ignores, term_strings, bound, size=None):
         ign |= {tuple(s) for s in term_strings[i]}
     for t in T:
         own = {tuple(s) for s in term_strings[t]}
-        if ignores and t not in ignores:
+        if ignores and (t not in ignores or liberal):
             own = own | {u + v for u in ign for v in own}
         tl[("T", t)] = own
     g = G(("N", "start"), V, [(True, ("N", h), b) for h, b in R])
@@ -138,8 +138,10 @@ def check_case(case):
     L, LB = case["maxlen"], case["maxbytes"]
     rng = random.Random(len(text))
     T, R, ignores = lark_rule_grammar(text)
-    if any(sym == ("T", i) for _, b in R for sym in b for i in ignores):
-        return out            # an ignored terminal that is also used in a rule: the statement's wording is ambiguous there
+    # an ignored terminal that is also used explicitly in a rule: the statement does not say whether the optional ignore prefix also
+    # precedes that occurrence; both readings are computed and only strings on which they agree are decided
+    # (strict reading <= accepted <= liberal reading)
+    ambiguous = any(sym == ("T", i) for _, b in R for sym in b for i in ignores)
     cand_c = ["".join(x) for x in convspec.strings_over(sigma, L)]
     cand_b = convspec.strings_by_bytes(sigma, LB)
     tsets, why = _fullmatch_sets(T, sigma, sorted(set(cand_c) | set(cand_b)))
@@ -149,6 +151,12 @@ def check_case(case):
     O_c = substitution_language(T, R, ignores, {t: {s for s in v if len(s) <= L} for t, v in tsets.items()}, L)
     O_b = substitution_language(T, R, ignores, {t: {s for s in v if len(convspec.encode(s)) <= LB} for t, v in tsets.items()}, LB,
                                 size=lambda ch: len(convspec.utf8(ch)))
+    if ambiguous:
+        O_c_hi = substitution_language(T, R, ignores, {t: {s for s in v if len(s) <= L} for t, v in tsets.items()}, L, liberal=True)
+        O_b_hi = substitution_language(T, R, ignores, {t: {s for s in v if len(convspec.encode(s)) <= LB} for t, v in tsets.items()}, LB,
+                                       size=lambda ch: len(convspec.utf8(ch)), liberal=True)
+    else:
+        O_c_hi, O_b_hi = O_c, O_b
     multibyte_terms = sum(1 for t in T if any(ord(c) > 127 for c in T[t]) or any(ord(c) > 127 for s_ in tsets[t] for c in s_))
     multimap = any(dom_conv.multichar_case(c) for t, rx in T.items() if "(?i" in rx for c in rx)
     desc = dict(lark_grammar=text, recursion=rec, charset="core" if core else "".join(sorted(charset)), candidates="".join(sigma),
@@ -191,7 +199,7 @@ def check_case(case):
             x = tuple(s)
             want = x in O_c
             got = x in A_c
-            if got != want:
+            if got != want and (x in O_c_hi) == want:
                 bad += 1
                 if bad == 1:
                     viol(OB_CHAR, "accepts-outside-language" if got else "rejects-member", s, got, want, icls_c,
@@ -213,6 +221,7 @@ def check_case(case):
         viol(OB_NAMES, "name-collision", None, sorted(clash, key=repr), "N & V empty", icls_b)
     snap = bridge.from_cfg(cb, lambda w: True)
     want_b = {convspec.encode(x) for x in O_b}
+    want_b_hi = want_b if not ambiguous else {convspec.encode(x) for x in O_b_hi}
     sig_bytes = {b for c in sigma for b in convspec.utf8(c)}
     B = sig_bytes | set(dom_conv.foreign_bytes(sig_bytes))
     sub = G(snap.S, frozenset(snap.V) & B, [r for r in snap.rules if all(y in B or y not in snap.V for y in r[2])])
@@ -228,7 +237,7 @@ def check_case(case):
         out["n"] += 1
         want = t is not None and bs in want_b
         got = bs in A_b
-        if got != want:
+        if got != want and (t is not None and bs in want_b_hi) == want:
             bad += 1
             if bad == 1:
                 shared = sorted({r[1] for r in snap.rules if isinstance(r[1], str) and r[1].startswith("_bytes")
